@@ -7,7 +7,7 @@ from .values import EngineError
 
 class ClassDecl:
     def __init__(self, name, fields, bases=(), module=None, src_name=None,
-                 external=False, truthy=None):
+                 external=False, truthy=None, src_path=None):
         self.name = name
         self.fields = dict(fields)
         self.bases = list(bases)
@@ -15,6 +15,7 @@ class ClassDecl:
         self.src_name = src_name or name
         self.external = external
         self.truthy = truthy          # None: always true
+        self.src_path = src_path      # qualified path of a class nested in a function
 
 
 class GhostDecl:
@@ -387,9 +388,9 @@ class Schema:
 
     # ---- declarations --------------------------------------------------
     def cls(self, name, fields=None, bases=(), module=None, src_name=None,
-            external=False, truthy=None):
+            external=False, truthy=None, src_path=None):
         d = ClassDecl(name, fields or {}, bases, module, src_name, external,
-                      truthy)
+                      truthy, src_path)
         self.classes[name] = d
         if module:
             self.src_class[(module, d.src_name)] = name
